@@ -17,3 +17,12 @@ let rec eqb n m =
   | S n' -> (match m with
              | O -> false
              | S m' -> eqb n' m')
+
+(** val leb : nat -> nat -> bool **)
+
+let rec leb n m =
+  match n with
+  | O -> true
+  | S n' -> (match m with
+             | O -> false
+             | S m' -> leb n' m')
